@@ -4,6 +4,8 @@
 package main
 
 import (
+	"bytes"
+	"encoding/json"
 	"flag"
 	"fmt"
 	"hash/fnv"
@@ -11,6 +13,7 @@ import (
 	"math/rand"
 	"net"
 	"os"
+	"strconv"
 	"time"
 
 	"github.com/vmware/go-ipfix/pkg/entities"
@@ -194,11 +197,16 @@ type session struct {
 	ep    *exporter.ExportingProcess
 	evals int
 	dist  map[uint64]bool
+	json  bool
 }
 
 func newSession(w *vt.Writer, proto string, dom uint32, seq0 uint32, dist map[uint64]bool) *session {
+	return newSessionJ(w, proto, dom, seq0, dist, false)
+}
+
+func newSessionJ(w *vt.Writer, proto string, dom uint32, seq0 uint32, dist map[uint64]bool, jsonMode bool) *session {
 	p := newPeer(proto)
-	ep, err := exporter.InitExportingProcess(exporter.ExporterInput{CollectorAddress: p.addr, CollectorProtocol: proto, ObservationDomainID: dom})
+	ep, err := exporter.InitExportingProcess(exporter.ExporterInput{CollectorAddress: p.addr, CollectorProtocol: proto, ObservationDomainID: dom, SendJSONRecord: jsonMode})
 	if err != nil {
 		panic(err)
 	}
@@ -206,8 +214,8 @@ func newSession(w *vt.Writer, proto string, dom uint32, seq0 uint32, dist map[ui
 	if seq0 != 0 {
 		ep.VerifSetSeqNumber(seq0)
 	}
-	w.Reset(vt.Ev{"proto": proto, "dom": vt.Limbs(dom), "seq0": vt.Limbs(seq0)})
-	return &session{w: w, p: p, ep: ep, dist: dist}
+	w.Reset(vt.Ev{"proto": proto, "dom": vt.Limbs(dom), "seq0": vt.Limbs(seq0), "json": jsonMode})
+	return &session{w: w, p: p, ep: ep, dist: dist, json: jsonMode}
 }
 
 func (s *session) send(d setDesc) {
@@ -232,6 +240,17 @@ func (s *session) send(d setDesc) {
 		n, err := s.ep.SendSet(set)
 		t1 := time.Now().Unix()
 		ev["t0"], ev["t1"], ev["ret"], ev["err"] = int(t0), int(t1), n, err != nil
+		if s.json {
+			raw := []byte{}
+			if err == nil && n > 0 {
+				raw = s.p.read(n)
+			}
+			ev["nbytes"] = len(raw)
+			ev["docs"] = parseDocs(raw)
+			ev["want"] = wantDocs(d)
+			ev["wire"] = []int{}
+			return
+		}
 		if err == nil && n > 0 {
 			ev["wire"] = vt.B(s.p.read(n))
 		} else {
@@ -239,6 +258,71 @@ func (s *session) send(d setDesc) {
 		}
 	}()
 	s.w.Emit(ev)
+}
+
+// parseDocs splits what arrived at the peer into JSON documents and returns, per document, the
+// "ipfix" object as field name -> text of the value.
+func parseDocs(raw []byte) []map[string]string {
+	out := []map[string]string{}
+	dec := json.NewDecoder(bytes.NewReader(raw))
+	dec.UseNumber()
+	for dec.More() {
+		var doc struct {
+			IPFIX map[string]any `json:"ipfix"`
+		}
+		if err := dec.Decode(&doc); err != nil {
+			out = append(out, map[string]string{"!error": err.Error()})
+			break
+		}
+		m := map[string]string{}
+		for k, v := range doc.IPFIX {
+			m[k] = fmt.Sprint(v)
+		}
+		out = append(out, m)
+	}
+	return out
+}
+
+// wantDocs renders the generator's own values the way a JSON reader sees them.
+func wantDocs(d setDesc) []map[string]string {
+	out := []map[string]string{}
+	if d.stype != "data" {
+		return out
+	}
+	for _, r := range d.recs {
+		m := map[string]string{}
+		for i, ie := range r.ies {
+			v := r.vals[i]
+			var x uint64
+			for _, b := range v {
+				x = x<<8 | uint64(b)
+			}
+			switch ie.DataType {
+			case entities.Unsigned8, entities.Unsigned16, entities.Unsigned32, entities.Unsigned64, entities.DateTimeSeconds, entities.DateTimeMilliseconds:
+				m[ie.Name] = strconv.FormatUint(x, 10)
+			case entities.Signed32:
+				m[ie.Name] = strconv.FormatInt(int64(int32(uint32(x))), 10)
+			case entities.Boolean:
+				m[ie.Name] = strconv.FormatBool(v[0] == 1)
+			case entities.String:
+				b := make([]byte, len(v))
+				for j := range v {
+					b[j] = byte(v[j])
+				}
+				m[ie.Name] = string(b)
+			case entities.Ipv4Address:
+				m[ie.Name] = fmt.Sprintf("%d.%d.%d.%d", v[0], v[1], v[2], v[3])
+			case entities.Ipv6Address:
+				b := make(net.IP, 16)
+				for j := range v {
+					b[j] = byte(v[j])
+				}
+				m[ie.Name] = b.String()
+			}
+		}
+		out = append(out, m)
+	}
+	return out
 }
 
 func (s *session) end() {
@@ -386,6 +470,49 @@ func main() {
 			s.end()
 			evals += s.evals
 		}
+		// JSON-record mode (beyond the listed properties): one document per record, templates write nothing
+		jpool := []*entities.InfoElement{}
+		seen := map[string]bool{}
+		for _, ie := range pool {
+			switch ie.DataType {
+			case entities.Unsigned8, entities.Unsigned16, entities.Unsigned32, entities.Unsigned64, entities.Signed32, entities.Boolean,
+				entities.String, entities.Ipv4Address, entities.Ipv6Address, entities.DateTimeSeconds, entities.DateTimeMilliseconds:
+				if !seen[ie.Name] {
+					seen[ie.Name] = true
+					jpool = append(jpool, ie)
+				}
+			}
+		}
+		for i := 0; i < nsess/3; i++ {
+			s := newSessionJ(w, "tcp", r.Uint32(), 0, dist, true)
+			for j := 0; j < 12; j++ {
+				tid := 256 + j
+				idx := r.Perm(len(jpool))[:1+r.Intn(10)] // distinct element names within one record
+				ies := make([]*entities.InfoElement, len(idx))
+				for q, x := range idx {
+					ies[q] = jpool[x]
+				}
+				s.send(tmplSet(tid, ies))
+				d := setDesc{stype: "data", hdrID: tid}
+				for k := 0; k < r.Intn(4); k++ {
+					vals := randVals(r, ies, 40)
+					for q, ie := range ies {
+						if ie.DataType == entities.String {
+							for z := range vals[q] {
+								vals[q][z] = 97 + vals[q][z]%26
+							}
+						}
+					}
+					d.recs = append(d.recs, rec{tid: tid, ies: ies, vals: vals})
+				}
+				s.send(d)
+				if j%5 == 4 {
+					s.send(dataSet(r, 999, ies, 1, 10, 4000)) // unknown template: error, nothing written
+				}
+			}
+			s.end()
+			evals += s.evals
+		}
 	case "c08":
 		nsess, nmsg := 6, 120
 		if thorough {
@@ -411,6 +538,7 @@ func main() {
 					s.send(dataSet(r, 257, ies2, r.Intn(4), 10, 60000))
 				case x == 1:
 					s.send(tmplSet(256, ies))
+					w.Emit(vt.Ev{"e": "NewTid", "id": int(s.ep.NewTemplateID())})
 				case x == 2:
 					s.send(dataSet(r, 256, ies, 0, 10, 60000)) // empty data set of a known template
 				case x == 3:
